@@ -196,6 +196,12 @@ def c20_jobs(tier, seed):
     if True:   # beyond 64 KiB, multi-byte delimiters and text (block-wise readers / decoders)
         J('spelling: 73 KB multi-byte document, delimiters 「 」, from a file', opts=dict(base, **{'delimiter-start': ['「'], 'delimiter-end': ['」'], 'removal-marker-target-name': ['x'], 'filename': ['in.txt']}), big=8)
         J('spelling: 73 KB multi-byte document, delimiters 「 」, from stdin', opts=dict(base, **{'delimiter-start': ['「'], 'delimiter-end': ['」'], 'removal-marker-target-name': ['x']}), big=8)
+    # one delimiter custom, the other one the documented default given explicitly (an option value equal to a default is still that value)
+    for ds_, de_ in (('/* <', '> -->'), ('<!-- <', '> */'), ('{{', '> -->'), ('<!-- <', '}}')):
+        J(f'spelling: delimiters {ds_!r} {de_!r} (one of them equals its default) mode=clean',
+          opts=dict(base, **{'delimiter-start': [ds_], 'delimiter-end': [de_], 'removal-marker-target-name': ['y']}))
+    for k_, v_ in (('time-limited-tag-name', 'time-limited'), ('removal-marker-tag-name', 'removal-marker'), ('time-limited-time-offset', '+00:00')):
+        J(f'option {k_} given explicitly with its default value', opts=dict(base, **{k_: [v_], 'removal-marker-target-name': ['y']}))
     for ds_, de_, tl_, rm_ in (('→ ', ' ←', 'TL', 'Removal-Marker'), (' [', '] ', 'Until', 'FLAG')):   # blanks at the ends of delimiters, upper case in tag names
         J(f'spelling: delimiters {ds_!r} {de_!r} names {tl_!r} {rm_!r} mode=clean',
           opts=dict(base, **{'delimiter-start': [ds_], 'delimiter-end': [de_], 'time-limited-tag-name': [tl_], 'removal-marker-tag-name': [rm_], 'removal-marker-target-name': ['y']}))
